@@ -28,7 +28,7 @@ Why(t) ==
     ELSE IF r.status = "ok" /\ ~t.accepted THEN "a properly nested template was rejected"
     ELSE IF r.status = "rejected" /\ t.accepted THEN "an improperly nested template was accepted"
     ELSE IF r.status = "rejected" /\ ~t.srcerr THEN "the rejection is not a SourceError"
-    ELSE IF r.status = "ok" /\ ~SameTree(r.root, t.tree) THEN "the parsed tree does not mirror the nesting"
+    ELSE IF r.status = "ok" /\ ~("notree" \in DOMAIN t) /\ ~SameTree(r.root, t.tree) THEN "the parsed tree does not mirror the nesting"
     ELSE IF r.status = "ok" /\ t.raws # RawBodies(t.toks, 1, "normal", <<>>) THEN "a raw block does not hold exactly the text between its tags"
     ELSE ""
 
